@@ -18,14 +18,6 @@ Proof.
   assert (existsb (fun x => (fst x =? a)%N) l = true) by (apply existsb_exists; exists (a, m); split; [auto|apply N.eqb_refl]).
   congruence.
 Qed.
-Lemma hid_true a l : has_id a l = true <-> In a l.
-Proof.
-  unfold has_id. rewrite existsb_exists. split.
-  - intros [x [Hin E]]. apply N.eqb_eq in E. now subst.
-  - intros H. exists a. split; auto. apply N.eqb_refl.
-Qed.
-Lemma hid_false a l : has_id a l = false <-> ~ In a l.
-Proof. rewrite <- hid_true. destruct (has_id a l); intuition congruence. Qed.
 Lemma in_rem_id a b l : In a (remove_id b l) -> In a l.
 Proof. unfold remove_id. rewrite filter_In. tauto. Qed.
 Lemma nodup_app_r {A} (a b : list A) : NoDup (a ++ b) -> NoDup b.
@@ -691,3 +683,49 @@ Proof.
   - apply law_sum_eq. eapply xrep_law_sum. exact H.
   - apply clones_held_none. reflexivity.
 Qed.
+
+(* ---------------- the contracts are satisfiable: concrete histories ---------------- *)
+Ltac ok_fin :=
+  vm_compute; repeat (match goal with |- _ /\ _ => split end);
+  try exact I; try (let Hc := fresh in intro Hc; repeat (destruct Hc as [Hc|Hc]); try discriminate; contradiction).
+
+Definition mf_none : mqfix := mkMqfix false false false.
+Definition mf_all : mqfix := mkMqfix true true true.
+Definition xw_req : pmsg := mkPmsg (be32 2147483649) [5%N].
+Definition xw_rep : pmsg := mkPmsg [] (be32 2147483649 ++ [9%N]).
+
+(* a blocking send that waits, a pipe that takes it, the transport's completion, a reply
+   coming up, a receive that gets it, a buffer resize, a second (non-blocking) send, a
+   receive that waits and is aborted, pipe close, socket close *)
+Definition xreq_hist : list pop :=
+  [PSend None 1%N false xw_req; PPipeStart 7%N PROTO_REP; PSendDone 7%N 0%N;
+   PRecvDone 7%N 0%N xw_rep; PRecv None 2%N false; PSetOpt None (OSendBuf 2);
+   PSend None 1%N true xw_req; PSend None 3%N false xw_req; PRecv None 2%N false; PCancel 2%N E_CANCELED;
+   PSendDone 7%N 0%N; PPipeClose 7%N; PSockClose].
+Example xreq_ok_nonvacuous :
+  ops_ok (xreq_step mf_none) xreq_ok xreq_init xreq_hist /\ ops_ok (xreq_step mf_all) xreq_ok xreq_init xreq_hist.
+Proof. split; ok_fin. Qed.
+(* and the ledger, replayed along it, never fails *)
+Example xreq_replay_runs :
+  replay_run view_xreq (xreq_step mf_none) ls_init xreq_init xreq_hist <> None /\
+  replay_run view_xreq (xreq_step mf_all) ls_init xreq_init xreq_hist <> None.
+Proof. split; vm_compute; discriminate. Qed.
+
+(* a request coming up, a receive that gets it, the reply routed to its pipe (sent at once),
+   a second reply queued behind it, the transport's completions, a resize, closes *)
+Definition xw_wire : pmsg := mkPmsg [] (be32 2147483649 ++ [9%N]).
+Definition xw_reply : pmsg := mkPmsg (be32 7 ++ be32 2147483649) [6%N].
+Definition xrep_hist : list pop :=
+  [PPipeStart 7%N PROTO_REQ; PRecvDone 7%N 0%N xw_wire; PRecv None 2%N false;
+   PSend None 1%N false xw_reply; PSend None 1%N true xw_reply; PSendDone 7%N 0%N; PSendDone 7%N 0%N;
+   PSetOpt None (ORecvBuf 4); PRecv None 2%N false; PCancel 2%N E_CANCELED; PPipeClose 7%N; PSockClose].
+Example xrep_ok_nonvacuous :
+  ops_ok (xrep_step mf_none) xrep_ok xrep_init xrep_hist /\ ops_ok (xrep_step mf_all) xrep_ok xrep_init xrep_hist.
+Proof. split; ok_fin. Qed.
+Example xrep_replay_runs :
+  replay_run view_xrep (xrep_step mf_none) ls_init xrep_init xrep_hist <> None /\
+  replay_run view_xrep (xrep_step mf_all) ls_init xrep_init xrep_hist <> None.
+Proof. split; vm_compute; discriminate. Qed.
+
+Print Assumptions xreq_proto_law.
+Print Assumptions xrep_proto_law.
